@@ -87,6 +87,10 @@ pub enum Fin {
     /// the callback works on its guards first (methods called in place, stashed ones moved out), then panics:
     /// the guards that are left are dropped by the unwinding
     LatePanic,
+    /// async variants only: the future returned by the callback is pending at its first poll; polled again it
+    /// works on its guards and completes with Ok / Err
+    PendOk,
+    PendErr,
 }
 
 #[derive(Debug, Clone, PartialEq, Eq)]
@@ -282,14 +286,23 @@ fn nat<T: std::str::FromStr>(s: &str) -> Option<T> {
 
 fn parse_round(s: &str) -> Option<Round> {
     let toks: Vec<&str> = s.split(',').collect();
-    let (last, init) = toks.split_last()?;
-    let fin = match *last {
+    let (last, mut init) = toks.split_last()?;
+    let mut fin = match *last {
         "ok" => Fin::Ok,
         "err" => Fin::Err,
         "panic" => Fin::Panic,
         "lpanic" => Fin::LatePanic,
         _ => return None,
     };
+    // `pend` must be the token right before `ok` / `err`
+    if let Some((&"pend", rest)) = init.split_last() {
+        fin = match fin {
+            Fin::Ok => Fin::PendOk,
+            Fin::Err => Fin::PendErr,
+            _ => return None,
+        };
+        init = rest;
+    }
     let mut acts = Vec::new();
     let mut recount = false;
     for t in init {
@@ -362,12 +375,19 @@ pub fn parse(line: &str) -> Option<Req> {
             if n == 0 {
                 return None;
             }
+            let var = Variant::parse(v)?;
+            let script = parse_script(sc)?;
+            // only the callback of an async variant returns a future that can be pending
+            let is_async = matches!(var, Variant::A | Variant::Ao | Variant::Ta | Variant::Tao);
+            if !is_async && script.iter().any(|r| matches!(r.fin, Fin::PendOk | Fin::PendErr)) {
+                return None;
+            }
             Req::Lock {
-                var: Variant::parse(v)?,
+                var,
                 h: nat(h)?,
                 k: nat(k)?,
                 h0: nat(h0)?,
-                limit: Limit::Soft(n, parse_script(sc)?),
+                limit: Limit::Soft(n, script),
             }
         }
         ["poll", h] => Req::Poll(nat(h)?),
@@ -413,6 +433,8 @@ impl fmt::Display for Round {
             Fin::Err => write!(f, "err"),
             Fin::Panic => write!(f, "panic"),
             Fin::LatePanic => write!(f, "lpanic"),
+            Fin::PendOk => write!(f, "pend,ok"),
+            Fin::PendErr => write!(f, "pend,err"),
         }
     }
 }
